@@ -51,6 +51,7 @@ def run(tier, seed):
     return finish("C13", tier, seed, t0, outs, RULE,
                   required_bits=["join_suspended", "join_callback_refused", "join_wakeup_found_joiner_active", "grandchildren",
                                  "interrupt_delivered", "interrupt_not_delivered", "interrupt_refused_while_disabled",
-                                 "interrupt_pending_across_disabled_scope", "jthread"],
+                                 "interrupt_pending_across_disabled_scope", "jthread", "interrupt_then_more_interruption_points",
+                                 "interrupted_thread_owns_jthread"],
                   assumptions=["pika refuses interrupt() while the target has interruption disabled (thread_not_interruptable) - that "
                                "counts as 'not delivered'", "one joiner per thread handle (public API)"])
